@@ -140,6 +140,47 @@ func PackageNameArg(arg *lisp.LVal) string {
 	return ""
 }
 
+// ExportNameNodes returns the symbol and string nodes that name the exports of
+// an (export ...) form, given the form's arguments.  It recognises every
+// spelling the export builtin accepts that can be read off the source: a
+// quoted or bare symbol, a string, a quoted list of those ('(a b)), and the
+// long form (quote x) of any of them.
+func ExportNameNodes(args []*lisp.LVal) []*lisp.LVal {
+	var out []*lisp.LVal
+	for _, arg := range args {
+		out = appendExportNameNodes(out, arg)
+	}
+	return out
+}
+
+func appendExportNameNodes(out []*lisp.LVal, arg *lisp.LVal) []*lisp.LVal {
+	if arg == nil {
+		return out
+	}
+	switch arg.Type { //nolint:exhaustive // only symbols, strings and lists name exports
+	case lisp.LSymbol, lisp.LString:
+		return append(out, arg)
+	case lisp.LSExpr:
+		if arg.IsQuoted() {
+			for _, cell := range arg.Cells {
+				out = appendExportNameNodes(out, cell)
+			}
+			return out
+		}
+		if HeadSymbol(arg) == "quote" && len(arg.Cells) == 2 {
+			quoted := arg.Cells[1]
+			if quoted.Type == lisp.LSExpr {
+				for _, cell := range quoted.Cells {
+					out = appendExportNameNodes(out, cell)
+				}
+				return out
+			}
+			return appendExportNameNodes(out, quoted)
+		}
+	}
+	return out
+}
+
 // SourceLoc returns v's source location as a pointer, or nil when v is nil
 // or carries no location.  The pointer refers to a private copy — mutating
 // it never affects v or any other LVal (lisp.LVal exposes locations by value
